@@ -7,6 +7,7 @@ import (
 	"crypto/sha256"
 	"encoding/hex"
 	"fmt"
+	"math/bits"
 	"os"
 	"strings"
 
@@ -69,6 +70,7 @@ func ahtHistory(r *vk.Run, maxN int, withProofs bool) error {
 	var payloads [][]byte // the model: the list of payloads
 	hw := 0               // largest size ever reached: upper bound of the commit-log entries on disk
 	ops := []string{}
+	mops := []string{} // the history as operations of the Coq digest-log model (Merkle/AHT.v)
 	nops := 10 + r.Rng.Intn(3*maxN)
 	for k := 0; k < nops; k++ {
 		switch x := r.Rng.Intn(20); {
@@ -79,9 +81,10 @@ func ahtHistory(r *vk.Run, maxN int, withProofs bool) error {
 			}
 			n, h, err := t.Append(d)
 			if err != nil {
-				return fmt.Errorf("append: %w", err)
+				return fmt.Errorf("Append #%d after ops %v: %w", len(payloads)+1, ops, err)
 			}
 			payloads = append(payloads, d)
+			mops = append(mops, "OAppend "+hx(d))
 			if len(payloads) > hw {
 				hw = len(payloads)
 			}
@@ -96,6 +99,7 @@ func ahtHistory(r *vk.Run, maxN int, withProofs bool) error {
 				return fmt.Errorf("reset: %w", err)
 			}
 			payloads = payloads[:ns]
+			mops = append(mops, fmt.Sprintf("OReset %d", ns))
 			ops = append(ops, fmt.Sprintf("reset(%d)", ns))
 		case x < 17:
 			if err := t.Sync(); err != nil {
@@ -139,14 +143,63 @@ func ahtHistory(r *vk.Run, maxN int, withProofs bool) error {
 	for k := 1; k <= n; k++ {
 		roots[k-1], err = t.RootAt(uint64(k))
 		if err != nil {
-			return fmt.Errorf("rootAt: %w", err)
+			return fmt.Errorf("RootAt(%d) of %d after ops %v: %w", k, n, ops, err)
 		}
 	}
 	r.Case(fmt.Sprintf("CAht %s %s", bytesList(payloads), digList(roots)),
 		map[string]any{"kind": "aht", "ops": strings.Join(ops, ","), "n": n}, "aht/history", n >= 3 && n&(n-1) != 0)
+	// the digest log as the tree reads it, against the digest-log model run on the same history:
+	// log content, RootAt(n) and every/sampled InclusionProof/ConsistencyProof, all as indices into it
+	digs, err := t.VerifDigests()
+	if err != nil {
+		return fmt.Errorf("VerifDigests: %w", err)
+	}
+	if uint64(len(digs)) != ahtree.VerifNodesUpto(uint64(n)) {
+		r.Finding(fmt.Sprintf("ahtree digest log holds %d digests for size %d, nodesUpto says %d (ops %v)", len(digs), n, ahtree.VerifNodesUpto(uint64(n)), ops))
+	}
+	didx := map[dig]int{}
+	for k := len(digs) - 1; k >= 0; k-- {
+		didx[digs[k]] = k
+	}
+	look := func(ds []dig) string {
+		xs := make([]string, len(ds))
+		for k := range ds {
+			if x, ok := didx[ds[k]]; ok {
+				xs[k] = fmt.Sprint(x)
+			} else {
+				xs[k] = fmt.Sprint(len(digs)) // not a stored node: out of range for the model
+			}
+		}
+		return vk.List(xs)
+	}
+	var mip, mcp []string
+	addPair := func(i, j int, ip, cp []dig) {
+		mip = append(mip, fmt.Sprintf("(%d, %d, %s)", i, j, look(ip)))
+		mcp = append(mcp, fmt.Sprintf("(%d, %d, %s)", i, j, look(cp)))
+	}
+	emitModel := func() {
+		r.Case(fmt.Sprintf("CAhtModel %s %s %s %s %s", vk.List(mops), digList(digs), look(roots), vk.List(mip), vk.List(mcp)),
+			map[string]any{"kind": "ahtmodel", "ops": strings.Join(ops, ","), "n": n, "digests": len(digs), "pairs": len(mip)},
+			"aht/model", n >= 3 && n&(n-1) != 0)
+	}
 	if !withProofs {
+		for s := 0; s < 60; s++ {
+			j := 1 + r.Rng.Intn(n)
+			i := 1 + r.Rng.Intn(j)
+			ip, err := t.InclusionProof(uint64(i), uint64(j))
+			if err != nil {
+				return fmt.Errorf("InclusionProof(%d,%d): %w", i, j, err)
+			}
+			cp, err := t.ConsistencyProof(uint64(i), uint64(j))
+			if err != nil {
+				return fmt.Errorf("ConsistencyProof(%d,%d): %w", i, j, err)
+			}
+			addPair(i, j, ip, cp)
+		}
+		emitModel()
 		return nil
 	}
+	defer emitModel()
 	// every inclusion / consistency proof, honest and mutated
 	for j := 1; j <= n; j++ {
 		for i := 1; i <= j; i++ {
@@ -165,6 +218,12 @@ func ahtHistory(r *vk.Run, maxN int, withProofs bool) error {
 				return fmt.Errorf("ConsistencyProof(%d,%d): %w", i, j, err)
 			}
 			verCons(r, roots, cp, uint64(i), uint64(j), roots[i-1], roots[j-1], "honest")
+			if len(cp) != consLen(uint64(i), uint64(j), bits.Len64(uint64(j)-1)) {
+				r.Finding(fmt.Sprintf("ahtree.ConsistencyProof(%d,%d) has %d terms, the length function of the harness says %d", i, j, len(cp), consLen(uint64(i), uint64(j), bits.Len64(uint64(j)-1))))
+			}
+			if n <= 17 || r.Rng.Intn(4) == 0 {
+				addPair(i, j, ip, cp)
+			}
 			if i == j {
 				verLast(r, payloads, ip, uint64(i), leaf, roots[j-1], "honest")
 			}
@@ -297,13 +356,42 @@ func verCons(r *vk.Run, roots []dig, p []dig, i, j uint64, iroot, jroot dig, buc
 					k = x + 1
 				}
 			}
-			if k > 0 {
+			if k > 0 && i >= 1 && i <= j && len(p) == consLen(i, j, bits.Len64(j-1)) {
+				// theorem C08_consistency_sound_exact_honest_length: impossible without a collision
+				r.Finding(fmt.Sprintf("ahtree.VerifyConsistency inexact at the honest proof length: old root of size %d accepted as size i=%d (j=%d, %d terms)", k, i, j, len(p)))
+			} else if k > 0 {
 				r.Finding(fmt.Sprintf("ahtree.VerifyConsistency position-inexact: old root of size %d accepted as size i=%d (j=%d, %d terms)", k, i, j, len(p)))
 			} else {
 				r.Finding(fmt.Sprintf("ahtree.VerifyConsistency accepted an old root that is the root of no prefix (i=%d j=%d)", i, j))
 			}
 		}
 	}
+}
+
+// consLen is the number of terms AHtree.ConsistencyProof(i, j) returns (a function of i and j only)
+func consLen(i, j uint64, height int) int {
+	n := 0
+	for h := height - 1; h >= 0; h-- {
+		if (j-1)&(1<<uint(h)) > 0 {
+			k := (j - 1) >> uint(h) << uint(h)
+			if i <= k {
+				n++
+				if i < k {
+					n += consLen(i, k, h)
+				}
+				if i == k {
+					n++
+				}
+				return n
+			}
+			n++
+			if i == j {
+				n++
+				return n
+			}
+		}
+	}
+	return n
 }
 
 // ---------------- htree ----------------
@@ -425,10 +513,40 @@ func resetReopenProbe(r *vk.Run) error {
 	return nil
 }
 
+// digest-log addressing arithmetic on sizes far beyond what a test tree reaches
+func arithCases(r *vk.Run) {
+	var ns []uint64
+	for k := uint(0); k <= 56; k++ {
+		p := uint64(1) << k
+		ns = append(ns, p, p+1)
+		if p > 1 {
+			ns = append(ns, p-1)
+		}
+	}
+	for k := 1; k <= 70; k++ {
+		ns = append(ns, uint64(k))
+	}
+	for k := 0; k < 120; k++ {
+		ns = append(ns, 1+uint64(r.Rng.Int63n(1<<uint(1+r.Rng.Intn(56)))))
+	}
+	var xs []string
+	for _, n := range ns {
+		xs = append(xs, fmt.Sprintf("(%d, %d, %d, %d)", n, ahtree.VerifNodesUpto(n), ahtree.VerifNodesUntil(n), ahtree.VerifLevelsAt(n)))
+		if len(xs) == 40 {
+			r.Case("CAhtArith "+vk.List(xs), map[string]any{"kind": "ahtarith", "first": n}, "aht/arith", true)
+			xs = nil
+		}
+	}
+	if len(xs) > 0 {
+		r.Case("CAhtArith "+vk.List(xs), map[string]any{"kind": "ahtarith"}, "aht/arith", true)
+	}
+}
+
 func Gen(r *vk.Run, n int) error {
 	shaCases(r, 20)
+	arithCases(r)
 	if err := resetReopenProbe(r); err != nil {
-		return err
+		r.Finding(fmt.Sprintf("ahtree operation failed in the rewind/reopen probe (append x5, ResetSize(2), Append, Close, Open): %v", err))
 	}
 	// small trees exhaustively with all proofs (every i <= j <= size), larger ones for roots only
 	ahtBudget := n * 6 / 10
@@ -437,12 +555,13 @@ func Gen(r *vk.Run, n int) error {
 			break
 		}
 		if err := ahtHistory(r, s, true); err != nil {
-			return err
+			// Append / RootAt / proofs never fail on these histories (theorems append_ok, root_at_ok, ...)
+			r.Finding(fmt.Sprintf("ahtree operation failed on a legal history (max size %d): %v", s, err))
 		}
 	}
 	for k := 0; k < 4; k++ {
 		if err := ahtHistory(r, 30+r.Rng.Intn(40), false); err != nil {
-			return err
+			r.Finding(fmt.Sprintf("ahtree operation failed on a legal history: %v", err))
 		}
 	}
 	t, _ := htree.New(4)
